@@ -35,6 +35,7 @@ Sweep: C11.4 every way an iteration of the restore walk can end is: restore resu
 Fifth round: C11.1 a bucket whose record names a parent is attached to it on every path, and a server carries the partition its record names (another value only when the record names none).
 Sixth round: C11.1 a partition is registered under the label it carries; C11.2 the source of a time stamp is found by reaching definitions (the read may sit in a helper or a try block of its own).
 Seventh round: C11.2 Server.put / Server.restore do not test the server state themselves (the walk above them does), so a recorded placement on a server that is down at reload time is restored as recorded.
+Eighth round: C11.1 load_servers runs before load_allocations and load_apps (servers register trait codes that required traits are encoded with); C11.2 a recorded placement is given up without trying the normal placement only for a schedule-once instance.
 Does NOT decide fidelity for all reachable stored states.
 """
 
